@@ -122,7 +122,29 @@ func (c *FmtCodec) Do(op Op) {
 	case OpHeading:
 		c.startLine()
 		c.write(strings.Repeat("#", op.Number) + " ")
-		c.writeSegmentsATXHeading(c.buildSegments(op.Content))
+		contentStart := c.sb.Len()
+		segs := c.buildSegments(op.Content)
+		c.writeSegmentsATXHeading(segs)
+		// If the content ends with something that looks like heading
+		// attributes, make sure it is not parsed as such.
+		content := c.sb.String()[contentStart:]
+		if m := atxHeadingAttributeRegexp.FindStringIndex(" " + content); m != nil {
+			brace := m[0] // index of { in content (m is relative to " "+content)
+			lastText := 0
+			if n := len(segs); n > 0 && segs[n-1].typ == segText {
+				lastText = len(escapeTrailingSpaceTab(segs[n-1].text))
+			}
+			all := c.sb.String()
+			c.sb.Reset()
+			if brace >= len(content)-lastText {
+				// The { is in the trailing text; escape it.
+				c.write(all[:contentStart+brace] + `\` + all[contentStart+brace:])
+			} else {
+				// The { is inside a code span or raw HTML, where it cannot be
+				// escaped; write the final } as a character reference.
+				c.write(all[:len(all)-1] + "&#125;")
+			}
+		}
 		if op.Info != "" {
 			c.write(" {" + op.Info + "}")
 		}
